@@ -160,6 +160,14 @@ class Own(Interp):
             return OV([("G", dotted)])
         return super().global_value(dotted, n, ctx)
 
+    def h_global_store(self, module, name, v, n, env, ctx):
+        # the stored object becomes reachable from module state: whoever holds it shares it with every later call
+        ov = self.to_ov(v) if not isinstance(v, OV) else v
+        return OV(set(ov.labels) | {("G", "%s.%s" % (module.name, name))}, elems=ov.elems, kind=getattr(ov, "kind", None))
+
+    def h_global_load(self, module, name, n, env, ctx):
+        return OV([("G", "%s.%s" % (module.name, name))])
+
     def h_const(self, n, ctx):
         return OV([IMM], kind="int" if isinstance(n.value, (int, bool)) else None)
 
